@@ -498,7 +498,17 @@ func (x *g) stmtOf(what string) {
 		}
 		x.f("risky-use-before-assignment")
 		n := x.fresh("u")
-		x.line("t(%s, %s)", x.tag(), n)
+		switch x.intn(3, "ubdform") {
+		case 0:
+			x.line("t(%s, %s)", x.tag(), n)
+		case 1: // through a nested function: the name is a free variable (or a global) of it
+			g := x.fresh("g")
+			x.line("def %s():", g)
+			x.line("    return %s", n)
+			x.line("t(%s, %s())", x.tag(), g)
+		case 2:
+			x.line("t(%s, [(lambda: %s)() for _ in [0]])", x.tag(), n)
+		}
 		x.line("%s = 1", n)
 		x.declare(n, KInt, nil)
 	case "earlyret":
